@@ -352,7 +352,22 @@ func (g *G) Message(hostile bool) string {
 		return plain.Draw(g.T, "msg")
 	}
 	m := ""
-	switch g.Int(-4, 7, "msgClass") {
+	switch g.Int(-6, 7, "msgClass") {
+	case -5:
+		// lines that look like the header fields of a commit object, quoting ids of existing objects
+		n := g.Int(0, 5, "quoted")
+		m = g.Pick([]string{
+			fmt.Sprintf("tree {{tree#%d}}", n),
+			fmt.Sprintf("revert\n\ntree {{tree#%d}}\nparent {{commit#%d}}", n, n),
+			fmt.Sprintf("parent {{commit#%d}}", n),
+			fmt.Sprintf("see\ntree {{tree#%d}}", n),
+			"author A U Thor <author@example.com> 1700000000 +0000",
+			"note\n\ncommitter C O Mitter <c@example.com> 1 -0100\nauthor nobody",
+			"tree of life", "parent and child", "author unknown words", "committer x",
+			"tree 0000000000000000000000000000000000000000",
+		}, "headerLike")
+	case -6:
+		m = g.Pick([]string{"subject\r\n\r\nbody line\r\n", "trailing cr\r", "lone\rcr inside", "a\r\nb", "\r\n", "\r", "x\n\r\ny"}, "cr")
 	case -3:
 		m = g.Pick([]string{"raise coverage to 100% of cmd", "%s %d %v", "100%", "%!s(MISSING)", "50%% done", "a %[1]d b", "%"}, "percent")
 	case -2:
@@ -377,7 +392,8 @@ func (g *G) Message(hostile bool) string {
 		// a long line: lengths around internal buffer sizes (4096, 8192) and arbitrary ones up to ~10 KiB
 		n := g.Int(1, 10000, "long")
 		if g.Bool("nearBoundary") {
-			n = g.Pick2([]int{4095, 4096, 4097, 8191, 8192, 8193, 4000, 5000}, "boundaryLen")
+			// 65536 is the line limit of a default bufio.Scanner; one argument can be at most 128 KiB long
+			n = g.Pick2([]int{4095, 4096, 4097, 8191, 8192, 8193, 4000, 5000, 65535, 65536, 65537, 70000, 130000}, "boundaryLen")
 		}
 		if g.Bool("longFirstLine") {
 			m = strings.Repeat("y", n)
@@ -395,6 +411,10 @@ func (g *G) Message(hostile bool) string {
 }
 
 func (g *G) UserName() string {
+	if g.Chance(2, "longName") {
+		// a value longer than the line limit of a default bufio.Scanner
+		return "L" + strings.Repeat("n", g.Pick2([]int{65530, 65536, 70000}, "nameLen")) + " end"
+	}
 	// printable UTF-8 without '<' and line breaks; inner single spaces; not starting with '-' (it is a CLI argument)
 	return rapid.StringMatching(`[A-Za-zé日%$&(][A-Za-z0-9é日.'%$&*",;!?@\[\]{}|~^+_/\\:=#)>-]{0,8}( [A-Za-z(%][A-Za-z0-9)>:=#%&*!]{0,6}){0,2}`).Draw(g.T, "uname")
 }
